@@ -473,7 +473,8 @@ side_append(struct ns_stream_side *sd, const uint8_t *data, size_t len) {
     sd->rx_cap = (sd->rx_len + len) * 2 + 64;
     sd->rx = realloc(sd->rx, sd->rx_cap);
   }
-  memcpy(sd->rx + sd->rx_len, data, len);
+  if (len)
+    memcpy(sd->rx + sd->rx_len, data, len);
   sd->rx_len += len;
   if (ns_stream_auto)
     sd->rx_avail = sd->rx_len;
